@@ -32,9 +32,9 @@ type OutSpec struct {
 
 // Case is one pipeline execution.
 type Case struct {
-	Name  string
-	Seed  int64
-	Procs int // GOMAXPROCS of the child (processor count = 2×)
+	Name       string
+	Seed       int64
+	Procs      int // GOMAXPROCS of the child (processor count = 2×)
 	SingleProc bool
 
 	Pool           string // std | low_memory
@@ -43,10 +43,10 @@ type Case struct {
 	EventTimeoutMs int
 	MaxEventSize   int
 
-	Sources   int
-	Streams   int // distinct stream-field values per source (0 = field absent)
-	PerSource int
-	Readers   int
+	Sources    int
+	Streams    int // distinct stream-field values per source (0 = field absent)
+	PerSource  int
+	Readers    int
 	PauseEvery int // reader pause (ms = PauseMs) after that many lines (0 = never)
 	PauseMs    int
 
@@ -65,6 +65,8 @@ type Case struct {
 
 	// HookSleeps: hook point -> [micros, percent]
 	HookSleeps map[string][2]int
+
+	Trace bool // stream every record to the child's on-disk log (used when re-running a crashing case)
 
 	Spread bool // input calls UseSpread + DisableStreams (kafka-like)
 }
